@@ -14,11 +14,12 @@ PROP = {
         "requests are sent by a hand-written Connect-protocol client (harness/eng_access.go) so that arbitrary header combinations can be presented",
     ],
     "level_text": "Lean: frame theorem for the model's request execution over every store and request (a request resolves to one project; every other project is unchanged; the decision depends on that project's state only), decision table total over the procedure list re-extracted from api/yorkie/v1/v1connect on every run, guard obligations over the call lists re-extracted from server/rpc/*_server.go and the interceptors, foreign-denied / no-credential-denied / existence-hidden over the whole request matrix by kernel evaluation. Tie: the same matrix (every procedure x credential kind x target kind x UseDefaultProject on/off) sent to a real in-process server with two projects using identical keys, decision compared line by line with the model and the victim projects' memdb state compared byte-wise before/after every request.",
-    "level_note": "The full statements hold of the current tree. They were false of the pinned tree at three lookups by bare id (YorkieService/GetRevision; DetachChannel, RefreshChannel), found by this check and repaired in /repo (ddb0dfd3, 3821028d); the model follows the repaired handlers, getRevision_fixed_witness / sessionScope_fixed_witness document the old variants. Error *texts* are not modelled (oracle only; one listed finding).",
+    "level_note": "The full statements hold of the current tree. They were false of the pinned tree at three lookups by bare id (YorkieService/GetRevision; DetachChannel, RefreshChannel), found by this check and repaired in /repo (ddb0dfd3, 3821028d); the model follows the repaired handlers, getRevision_fixed_witness / sessionScope_fixed_witness document the old variants. Error *texts* are not modelled (oracle only); the text differences and the printed owning-project id the oracle found were repaired by /repo 863f1a42, no known finding is left. One documented text difference about project names/ids (membership vs existence) is counted, not reported – see not_modelled.",
     "technique": "Lean 4 proof (frame theorem + kernel-evaluated decision matrix over T-gen tables) + exhaustive differential replay against a real server",
     "partial": [],
     "not_modelled": [
-        "text of error messages (the oracle compares them between a foreign id and a nowhere-existing id; differences are the listed finding c13-error-message-discloses)",
+        "text of error messages: not in the Lean model, oracle only. The oracle compares the text for a foreign id with the text for a nowhere-existing id and scans every response for identifiers of a victim project; since /repo 863f1a42 any difference for clients / documents / revisions / sessions and any printed foreign project id is a plain violation",
+        "documented behaviour, counted but not reported (distribution key `documented:project-membership-vs-existence-text`): on the admin service a signed-up user can tell a project he is not a member of (`project member not found`, ErrMemberNotFound) from a project that does not exist (`<name|id>: project not found`, ErrProjectNotFound). That concerns project names / ids, which are globally unique (CreateProject answers already_exists) and which C13 (`clients and documents of another project`) does not cover; the status code is not_found in both cases",
         "auth webhook (`auth.VerifyAccess` is a no-op without a configured webhook; its presence in every handler is a T-gen obligation only)",
         "CORS origin check of the Yorkie interceptor; MCP and auth HTTP handlers (not part of the three service descriptors)",
         "malformed payloads (every request of the matrix is well-formed; validation order is not modelled)",
